@@ -2,12 +2,17 @@
    the same assumption set hand out no configuration twice within a cycle.  Property theorems only.
 
    Model: Model/Cursor.v (abstract page semantics; a configuration is its index in the fixed
-   enumeration order of its assumption key, count(A) = cnt key).  The repaired protocol
+   enumeration order of its assumption key, count(A) = cnt key).  The key of a request with the
+   assumption list A is enum_key A (Model/Enumerate.v: sorted by feature, repeated literals
+   removed -- repair F19 of finding K12); for consistent lists that is the SET of literals
+   (C17_key_is_set), so "the same assumption set" below is "the same key".  The repaired protocol
    (reserve under one lock acquisition, then compute) is what /repo HEAD implements; the old
    protocol v0 (read, compute, write under a second acquisition) is what 33d49b8 replaced. *)
 From Coq Require Import List ZArith Bool Arith Permutation.
-From DD Require Import Model.Cursor Proofs.Cursor Proofs.CursorCycle Proofs.CursorRace.
+From DD Require Import Model.Circuit Model.Enumerate Model.Cursor Proofs.C06Sort
+  Proofs.Cursor Proofs.CursorCycle Proofs.CursorRace Proofs.C17Key.
 Import ListNotations.
+Close Scope Z_scope. Open Scope nat_scope.
 
 (* Every complete run of the repaired protocol -- any number of requests, same or different keys,
    any interleaving of their reserve and compute steps, any initial cursor, any counts -- returns
@@ -75,6 +80,58 @@ Theorem C17_concurrent_disjoint : forall cnt reqs cur0 es st k,
 Proof. exact concurrent_cycle. Qed.
 Print Assumptions C17_concurrent_disjoint.
 
+(* F19 (finding K12): requests for the same SET of literals have the same key.  req_of (A, amount) is
+   the request the library makes of an assumption list: key = enum_key A.  consistent A: no literal
+   together with its complement (implied by count(A) > 0, C06_sat_consistent); same_set A A': the
+   same literals, in any order, any literal any number of times. *)
+Theorem C17_key_is_set : forall A q,
+  consistent A -> same_set A (fst q) -> rkey (req_of q) = enum_key A.
+Proof. exact req_key_is_set. Qed.
+Print Assumptions C17_key_is_set.
+
+(* ... and therefore page through ONE cycle: sequentially (C17_disjoint_within_cycle for all
+   spellings together) *)
+Theorem C17_same_set_one_cycle : forall (cnt : key -> nat) A (qs : list (cfg * nat)) (cur0 : Cursor.cursor),
+  consistent A -> 0 < cnt (enum_key A) -> cur0 (enum_key A) = 0 ->
+  (forall q, In q qs -> same_set A (fst q) /\ 0 < snd q) ->
+  let c := cnt (enum_key A) in
+  let pages := seq_run cnt cur0 (map req_of qs) in
+  let T := length (concat pages) in
+  concat pages = cyc c T /\
+  (forall n, length (concat (firstn n pages)) <= c -> NoDup (concat (firstn n pages))) /\
+  (forall j, j < c -> count_occ Nat.eq_dec (concat pages) j = T / c + (if j <? T mod c then 1 else 0)) /\
+  (forall p, In p pages -> p <> []).
+Proof. exact same_set_one_cycle. Qed.
+Print Assumptions C17_same_set_one_cycle.
+
+(* ... and concurrently (every interleaving of the repaired protocol): every request is `mine`, the
+   answers in reserve order are one walk through the cycle, nothing twice within a cycle *)
+Theorem C17_same_set_concurrent : forall (cnt : key -> nat) A (qs : list (cfg * nat)) (cur0 : Cursor.cursor) es st,
+  let reqs := map req_of qs in
+  consistent A -> (forall q, In q qs -> same_set A (fst q) /\ 0 < snd q) ->
+  r_run cnt reqs (r_init cur0 reqs) es st -> r_complete st = true ->
+  0 < cnt (enum_key A) -> cur0 (enum_key A) = 0 ->
+  let mine := fun i => on_key (enum_key A) (nth i reqs dreq) in
+  (forall i, i < length reqs -> mine i = true) /\
+  let in_reserve_order := select [] (r_answers st) (filter mine (reserve_order es)) in
+  let in_request_order := select [] (r_answers st) (filter mine (seq 0 (length reqs))) in
+  let T := length (concat in_request_order) in
+  concat in_reserve_order = cyc (cnt (enum_key A)) T /\
+  Permutation (concat in_request_order) (cyc (cnt (enum_key A)) T) /\
+  (T <= cnt (enum_key A) -> NoDup (concat in_request_order)).
+Proof. exact same_set_concurrent. Qed.
+Print Assumptions C17_same_set_concurrent.
+
+(* REFUTED for the code before F19 (key = the sorted LIST, req_of_v0): `enum a 1` and `enum a 1 1`,
+   two of four configurations each: both requests get [0; 1]; with F19 the second gets [2; 3] *)
+Theorem C17_key_v0_refuted : exists (cnt : key -> nat) (qs : list (cfg * nat)),
+  (forall q, In q qs -> same_set [1%Z] (fst q) /\ 0 < snd q) /\ consistent [1%Z] /\
+  seq_run cnt (fun _ => 0) (map req_of_v0 qs) = [[0; 1]; [0; 1]] /\
+  ~ NoDup (concat (seq_run cnt (fun _ => 0) (map req_of_v0 qs))) /\
+  seq_run cnt (fun _ => 0) (map req_of qs) = [[0; 1]; [2; 3]].
+Proof. exact key_v0_refuted. Qed.
+Print Assumptions C17_key_v0_refuted.
+
 (* the executable event validator used by the correspondence run is the step relation *)
 Theorem C17_valid_event_step : forall cnt reqs st e,
   valid_event cnt reqs st e = true <-> exists st', r_step cnt reqs st e st'.
@@ -132,3 +189,17 @@ Example ex_valid_event :
   valid_event ex_cnt ex_reqs (r_init ex_cur0 ex_reqs) (EReserve 1) = true /\
   valid_event ex_cnt ex_reqs (r_init ex_cur0 ex_reqs) (ECompute 1) = false.
 Proof. split; vm_compute; reflexivity. Qed.
+
+(* F19: the hypotheses of C17_same_set_one_cycle hold for three spellings of {-3, 1}, and the
+   statement evaluated: 2 + 2 + 1 indices of a cycle of 4 = [0;1] [2;3] [0] *)
+Example ex_same_set :
+  let A := [(-3)%Z; 1%Z] in
+  let qs := [([(-3)%Z; 1%Z], 2); ([1%Z; (-3)%Z; 1%Z; (-3)%Z], 2); ([1%Z; 1%Z; (-3)%Z], 1)] in
+  consistent A /\ (forall q, In q qs -> same_set A (fst q) /\ 0 < snd q) /\
+  map rkey (map req_of qs) = [[1%Z; (-3)%Z]; [1%Z; (-3)%Z]; [1%Z; (-3)%Z]] /\
+  seq_run (fun _ => 4) (fun _ => 0) (map req_of qs) = [[0; 1]; [2; 3]; [0]].
+Proof.
+  cbv zeta. split; [|split; [|split; vm_compute; reflexivity]].
+  - intros x y [<-|[<-|[]]] [<-|[<-|[]]] H; try reflexivity; cbn in H; discriminate.
+  - intros q [<-|[<-|[<-|[]]]]; cbn [fst snd]; (split; [intros l; cbn [In]; tauto|auto with arith]).
+Qed.
